@@ -21,17 +21,26 @@
 (* both placements are exact).  A call logged before `hold.release` must be *)
 (* enabled while the lock is held: clear() / retain / delete / insert on a  *)
 (* locked shard cannot have returned.                                       *)
-(* Real-parallel trials (`free`) have no total order: schedule-independent  *)
-(* facts only (FreeOK).                                                     *)
+(* Clone runs: the scheduler also yields at the points inside Key::get_hash  *)
+(* (`key.*.pre`), so a call announced by `op.begin.pre` with d.lin = TRUE    *)
+(* takes effect at the LAST yield of its get_hash (`key.hash.load.pre` on    *)
+(* the memoised path, `key.hashed.store.pre` on the first-use path): after   *)
+(* that grant the thread runs straight into the shard's critical section.    *)
+(* `op.clone.pre` / `op.cloned.post` are the clone of a shared lazily hashed *)
+(* key (atomic between two grants) and the hash the copy then returns.       *)
+(* Real-parallel trials (`free`, `clonefree`) have no total order: schedule- *)
+(* independent facts only (FreeOK, CloneFreeOK).                             *)
 EXTENDS Registry, Json, IOUtils, TLCExt
-VARIABLES l, exp
+VARIABLES l, exp, pend
 Rec == ndJsonDeserialize(IOEnv.TRACE)
-tvars == <<vars, l, exp>>
+tvars == <<vars, l, exp, pend>>
+NoPend == [op |-> "none"]
 Ev == Rec[l].ev
 P == Rec[l].p
 A == Rec[l].a
 D == Rec[l].d
-Go(e) == l' = l + 1 /\ exp' = e
+Go(e) == l' = l + 1 /\ exp' = e /\ UNCHANGED pend
+GoP(e, pn) == l' = l + 1 /\ exp' = e /\ pend' = pn
 Obs(cond) == cond /\ Go(exp) /\ UNCHANGED vars
 
 Reset ==
@@ -72,17 +81,29 @@ Expect(tag, payload) ==
   /\ Head(exp)[3] = payload
   /\ Go(Tail(exp)) /\ UNCHANGED vars
 
-Begin ==
+BeginWith(d) ==
   /\ exp = <<>>
-  /\ D.heq                           \* the key hashes like the canonical key of its class (hash contract observed)
-  /\ D.s \in Shards
-  /\ CASE D.op = "goc" -> /\ GocRead(P, D.k, D.c, D.v, D.s)
-                          /\ Go(IF pc'[P] = "gap" THEN <<>> ELSE AfterYield(P, res'[P]))
-       [] D.op = "get" -> Get(P, D.k, D.c, D.v, D.s) /\ Go(<<XDone(P, res'[P])>>)
-       [] D.op = "del" -> Delete(P, D.k, D.c, D.v, D.s) /\ Go(<<XDone(P, res'[P])>>)
-       [] D.op \in {"visit", "handles", "clear"} -> ScanAll(P, D.op, D.k, {}) /\ Go(<<XDone(P, res'[P])>>)
-       [] D.op = "retain" -> ScanAll(P, "retain", D.k, SeqSet(D.keep)) /\ Go(<<XDone(P, res'[P])>>)
+  /\ d.heq                           \* the key hashes like the canonical key of its class (hash contract observed)
+  /\ d.s \in Shards
+  /\ CASE d.op = "goc" -> /\ GocRead(P, d.k, d.c, d.v, d.s)
+                          /\ exp' = (IF pc'[P] = "gap" THEN <<>> ELSE AfterYield(P, res'[P]))
+       [] d.op = "get" -> Get(P, d.k, d.c, d.v, d.s) /\ exp' = <<XDone(P, res'[P])>>
+       [] d.op = "del" -> Delete(P, d.k, d.c, d.v, d.s) /\ exp' = <<XDone(P, res'[P])>>
+       [] d.op \in {"visit", "handles", "clear"} -> ScanAll(P, d.op, d.k, {}) /\ exp' = <<XDone(P, res'[P])>>
+       [] d.op = "retain" -> ScanAll(P, "retain", d.k, SeqSet(d.keep)) /\ exp' = <<XDone(P, res'[P])>>
        [] OTHER -> FALSE
+  /\ l' = l + 1
+
+Linearized(d) == "lin" \in DOMAIN d /\ d.lin
+\* a call is announced; it takes effect here, or (d.lin) at the last yield point of its get_hash
+Begin ==
+  IF Linearized(D)
+  THEN exp = <<>> /\ pend[P].op = "none" /\ GoP(<<>>, [pend EXCEPT ![P] = D]) /\ UNCHANGED vars
+  ELSE BeginWith(D) /\ UNCHANGED pend
+\* the last yield of get_hash: the announced call enters the registry's critical section
+KeyLast ==
+  IF pend[P].op = "none" THEN Obs(exp = <<>>)
+  ELSE BeginWith(pend[P]) /\ pend' = [pend EXCEPT ![P] = NoPend]
 
 Triples(q) == {<<q[i][1], q[i][2], q[i][3]>> : i \in DOMAIN q}
 CountKC(q, kc) == Cardinality({i \in DOMAIN q : q[i][1] = kc[1] /\ q[i][2] = kc[2]})
@@ -104,9 +125,20 @@ FreeOK(r) ==
      /\ \A kc \in KC : CountKC(r.cons, kc) = CountKC(r.dels, kc) + CountKC(r.rets, kc) + CountKC(r.final, kc)
      /\ \A vi \in DOMAIN r.visits : Triples(r.visits[vi]) \subseteq cons /\ OncePerKey(r.visits[vi])
 
+\* real-parallel clone trial: one registering thread uses fresh, lazily hashed shared keys, cloning threads copy each
+\* key while it is being hashed for the first time and use their copies; quiescent facts
+CloneFreeOK(r) ==
+  /\ r.hash_mismatch = 0            \* every copy memoises the hash of the original (the contract the registry rests on)
+  /\ r.storages = r.keys /\ r.dup_keys = 0      \* visit: every key exactly once
+  /\ r.handles = r.keys
+  /\ r.cons = r.keys                \* exactly one storage constructed per key
+  /\ r.incr_visible = r.incr_made   \* every increment (through the original or a copy) reached the original's storage
+  /\ r.clone_get_mismatch = 0       \* get through a copy = get through the original
+  /\ r.clone_delete_false = 0 /\ r.left_after_delete = 0   \* delete through a copy removes the entry
+
 TraceNext ==
   /\ l <= Len(Rec)
-  /\ CASE Ev = "reset"        -> D.nshards = NShards /\ D.keys_ok /\ Reset /\ Go(<<>>)
+  /\ CASE Ev = "reset"        -> D.nshards = NShards /\ D.keys_ok /\ Reset /\ GoP(<<>>, [t \in Threads |-> NoPend])
        [] Ev = "start.pre"    -> Obs(exp = <<>>)
        [] Ev = "op.begin.pre" -> Begin
        [] Ev = "reg.gap.pre"  -> exp = <<>> /\ GocWrite(P) /\ Go(AfterYield(P, res'[P]))
@@ -115,6 +147,11 @@ TraceNext ==
        [] Ev = "op.done.post" -> /\ exp # <<>> /\ Head(exp)[1] = "done" /\ Head(exp)[2] = P
                                  /\ DoneMatches(Head(exp)[3], D)
                                  /\ Go(Tail(exp)) /\ UNCHANGED vars
+       [] Ev \in {"key.hashed.load.pre", "key.hash.store.pre"} -> Obs(exp = <<>>)
+       [] Ev \in {"key.hash.load.pre", "key.hashed.store.pre"} -> KeyLast
+       [] Ev = "op.clone.pre"   -> Obs(exp = <<>>)
+       [] Ev = "op.cloned.post" -> Obs(exp = <<>> /\ A[1] = 1)   \* the copy returns the hash of the original
+       [] Ev = "clonefree"      -> Obs(exp = <<>> /\ CloneFreeOK(D))
        [] Ev = "hold.enter"   -> \* the callback that parks was called on an entry of shard D.s, the last non-empty one
                                  /\ exp = <<>>
                                  /\ D.op \in {"visit", "retain"}
@@ -124,13 +161,13 @@ TraceNext ==
                                  /\ Go(<<>>)
        [] Ev = "hold.release" -> exp = <<>> /\ ScanFinishFrom(P) /\ Go(<<XDone(P, res'[P])>>)
        [] Ev = "final"        -> Obs(/\ exp = <<>>
-                                     /\ \A t \in Threads : pc[t] = "idle"
+                                     /\ \A t \in Threads : pc[t] = "idle" /\ pend[t].op = "none"
                                      /\ D.constructed = nextId - 1
                                      /\ \A k \in Kinds : ListEq(D.visit[k + 1], Entries(k)) /\ ListEq(D.handles[k + 1], Entries(k)))
        [] Ev = "free"         -> Obs(exp = <<>> /\ FreeOK(D))
        [] OTHER -> FALSE       \* panic / stuck / livelock / hang / unknown site
 
-TraceInit == Init /\ l = 1 /\ exp = <<>>
+TraceInit == Init /\ l = 1 /\ exp = <<>> /\ pend = [t \in Threads |-> NoPend]
 TraceSpec == TraceInit /\ [][TraceNext]_tvars
 TraceAccepted ==
   LET d == TLCGet("stats").diameter IN
